@@ -45,6 +45,9 @@ def check_c15(case, stats=None):
             if r.ctx.get("loop") in ("0", "1"):
                 looping = r.ctx["loop"] == "1"
                 loop_known = True
+                if looping:
+                    for oc in calls:
+                        oc.fields["_starting"] = False      # from here on the observed flag tells
             else:
                 loop_known = False      # (inside a deny-ctx callback the context cannot be asked: the loop may have stopped meanwhile)
         elif r.k == "B":
@@ -58,7 +61,13 @@ def check_c15(case, stats=None):
             r.fields["_st"] = dict(st)
             r.fields["_srclen"] = dict(srclen)
             r.fields["_ctx"] = dict(ctxs)
-            r.fields["_loop"] = looping and loop_known
+            # a top-level m_ctx_loop() / m_ctx_dispatch() entered on an idle context starts the loop: the callbacks it runs
+            # before the context was first observed looping (evaluation / start of the IDLE modules) run in a looping context,
+            # whatever the observation says there
+            if r.op in ("ctx_loop", "ctx_dispatch") and r.depth == 0 and loop_known and not looping and ctxs.get("ctx") == "1":
+                r.fields["_starting"] = True
+            starting = any(oc.fields.get("_starting") for oc in calls if oc is not r)
+            r.fields["_loop"] = (looping and loop_known) or (starting and bool(cbs))
             r.fields["_live"] = dict(live_by_name)
             r.fields["_inner"] = cbs[-1].slot if cbs else None
         elif r.k == "<":
